@@ -108,7 +108,8 @@ theorem mid_perkeys' {E : Env} {t : State} (M : Mid E t) (pk : Array PerKeyRec) 
   exact GInv.congr I (SameG.of_nodes rfl rfl rfl rfl rfl)
 
 theorem bf_perkeys (D : Nat → Prop) (σ : State) (pk : Array PerKeyRec) : BF D σ { σ with perkeys := pk } :=
-  ⟨Nat.le_refl _, fun _ _ => rfl, rfl, fun _ er h => ⟨er, h, rfl, rfl, fun _ => rfl, [], (List.append_nil _).symm⟩⟩
+  ⟨Nat.le_refl _, fun _ _ => rfl, rfl, fun _ er h => ⟨er, h, rfl, rfl, fun _ => rfl, [], (List.append_nil _).symm⟩,
+    fun m _ _ _ hs => (V_stamp_iff _ m).2 ((V_stamp_iff σ m).1 hs)⟩
 
 theorem lf_perkeys {D : Nat → Prop} {a σ : State} (h : LF D a σ) (pk : Array PerKeyRec) :
     LF D a { σ with perkeys := pk } :=
